@@ -210,7 +210,7 @@ def gen_history(rng, style):
             ok = False
         if start is not None and ok:
             e = start + (length or 1)
-            if (0 <= start and start >= Lpre) or e > Lpre:
+            if not (0 <= start < Lpre) or e > Lpre:
                 ok = False
             for f in fields:
                 if f["start"] is not None and compatible(f["cond"], cond) and compatible(cond, f["cond"]):
@@ -539,15 +539,15 @@ def oracle(c, res, report):
             name, length, start, tg = op[2], op[3], op[4], op[5]
             new = dict(k=k, name=name, cond=dict(fv), length=length, start=start, tags=list(tg), values=[])
             # explicit definitions that overlap or overflow must be rejected
-            if start is not None and start >= 0:
+            if start is not None:
                 lmin = length or 1            # an explicitly positioned field occupies at least one bit
-                if start + lmin > L or start >= L:
+                if start + lmin > L or start >= L or start < 0:
                     report("explicit-overflow-accepted", "add_field(%d, length=%r, start_at=%r) accepted in a %d-bit bit field"
                            % (name, length, start, L))
                 for f in fl.fields:
                     if fl.compatible(f["cond"], fv) and fl.compatible(fv, f["cond"]):
                         p = fl.pos.get(f["k"])
-                        if p is None and f["start"] is not None and f["start"] >= 0:
+                        if p is None and f["start"] is not None:
                             p = (f["start"], f["length"] or 1)
                         if p is not None and start < p[0] + p[1] and p[0] < start + lmin:
                             report("explicit-overlap-accepted",
